@@ -152,12 +152,12 @@ ERR = {'BadValueError': 'BadValueError', 'KeyError': 'KeyError', 'IndexError': '
 
 
 class World:
-    def __init__(self, mm, observe=True):
+    def __init__(self, mm, observe=True, builder=None):
         from pyecore.resources import ResourceSet
         from pyecore.resources.resource import Resource
         from pyecore.notification import EObserver
         self.mm = mm
-        self.pk, self.classes, self.feats = build_mm(mm)
+        self.pk, self.classes, self.feats = (builder or build_mm)(mm)
         self.fid_of = {id(f): i for i, f in enumerate(self.feats)}
         self.objs = []
         self.res = []
